@@ -658,7 +658,7 @@ pub fn finish_spec(ctx: &Ctx) -> Finish<'static> {
             "histories inside known-defect zones (zones.rs) are not generated; each zone has a directed scenario whose complaint is a known finding".into(),
             "symlinks, hard links, permissions, timestamps are never generated; dangling subtrees are not asserted".into(),
         ],
-        min_distinct: ctx.pick(4_000, 30_000),
+        min_distinct: ctx.pick(4_000, 20_000),
         required_counters: vec![
             "crash_points",
             "crash_points_nontrivial",
